@@ -32,8 +32,8 @@ type Cycle struct {
 
 type Case struct {
 	Keys      [][]byte `json:"keys"`
-	Build     []Batch  `json:"build"`     // lineage: one table per batch, oldest first
-	MaxRank   int      `json:"max_rank"`  // -1: huge; 0: below the smallest table; k: just above the k-th smallest table
+	Build     []Batch  `json:"build"`    // lineage: one table per batch, oldest first
+	MaxRank   int      `json:"max_rank"` // -1: huge; 0: below the smallest table; k: just above the k-th smallest table
 	Ratio     float32  `json:"ratio"`
 	Threshold int      `json:"threshold"`
 	WBuf      uint64   `json:"wbuf"`
